@@ -1418,7 +1418,14 @@ class Model(Object):
     def __exit__(self, type, value, traceback) -> None:
         """Pop the top context manager and trigger the undo functions."""
         context = self._contexts.pop()
-        context.reset()
+        # The undo operations must not be recorded by enclosing contexts, which
+        # would replay them (undoing the undo) on their own exit.
+        enclosing = self._contexts
+        self._contexts = []
+        try:
+            context.reset()
+        finally:
+            self._contexts = enclosing
 
     def merge(
         self,
